@@ -33,12 +33,20 @@ DECIDED = [
     "R-C01-TRANSFER (names, gate): every Redis list / sorted-set name built for a message carries that message's priority (one named exception: the orphan clean-up); dead-lettering on delivery happens only for NORMAL consumers (C12's gate rules reused: a nack from a DELAYED/DEAD reader has no dead-letter target)",
     "R-C01-TRANSFER (round 4): RabbitMQ consume() returns a completed queue.get() before anything else in that iteration; the in-memory delayed->waiting promotion reads the clock once and removes exactly what it promoted (C05's CMP rules reused)",
     "R-C01-TRANSFER / R-C01-SOURCE (round 5): categories are compared by equality (str-Enum: the plain string value is an accepted category); the maintenance age test reads the clock like every other expiry test (clock family)",
+    "R-C01-TRANSFER (round 6 + sweep): RabbitMQ contract tables - delivery decision table (eight rows of guard atoms -> bounce | dead-letter | remember tag and hand out, on every path), lifecycle (queue of the category, manual ack, prefetch windows, consumer tag, flags, cancel, drain), details (headers guard, id kept, key fields, priority default, known tags rejected, fast-path guard, pending helper tasks cancelled, cancellation re-raised, re-subscription), enqueue contract (TTL iff due time ahead, delayed queue iff TTL, mandatory, confirmation, channel accessor, dead-letter topology); the Redis fetch hands out only names read in this call and keeps nothing; finish() rejects exactly its own buffered deliveries",
+    "R-C01-AWAITED: no asynchronous operation is created and dropped in the anchored files (every property has this rule under its own id)",
 ]
 NOT_DECIDED = ["the whole-history statement under concurrent clients of Redis/RabbitMQ (partly C14)", "server-side behaviour", "'well-behaved client' preconditions"]
 ASSUMPTIONS = ["redis-py pipeline(transaction=True) buffers commands and sends them in one MULTI/EXEC on execute()", "asyncio: code between two awaits is atomic"]
 
 
 def run(ctx: Ctx) -> None:
+    from .shared import every_operation_awaited
+
+    every_operation_awaited(ctx, "R-C01-AWAITED")  # in the files this property is anchored in, no asynchronous operation is created and dropped
+    from .brokers import redis_defaults_only_when_missing
+
+    redis_defaults_only_when_missing(ctx, "R-C01-SOURCE")  # Redis reject uses the stored parameters / reject target when present; maintenance returns (not drops) entries that have data
     from .shared import category_equality
 
     category_equality(ctx, "R-C01-SOURCE")
@@ -63,6 +71,24 @@ def run(ctx: Ctx) -> None:
     from .brokers import rabbit_consume_keeps_fetched
 
     rabbit_consume_keeps_fetched(ctx, "R-C01-TRANSFER")
+    from .brokers import rabbit_delivery_table, rabbit_lifecycle
+
+    rabbit_delivery_table(ctx, "R-C01-TRANSFER")
+    rabbit_lifecycle(ctx, "R-C01-TRANSFER")
+    from .brokers import rabbit_consume_releases_get, rabbit_delivery_details, rabbit_start_fails_loudly
+
+    rabbit_delivery_details(ctx, "R-C01-TRANSFER")
+    from .brokers import rabbit_enqueue_contract
+
+    rabbit_enqueue_contract(ctx, "R-C01-TRANSFER")
+    rabbit_consume_releases_get(ctx, "R-C01-TRANSFER")  # a leaked getter task swallows the next delivery: that message is in no place
+    rabbit_start_fails_loudly(ctx, "R-C01-TRANSFER")
+    from .brokers import redis_fetch_reads_server
+    from .C03 import finish
+
+    redis_fetch_reads_server(ctx, "R-C01-TRANSFER")
+    with ctx.as_rule("R-C01-TRANSFER"):
+        finish(ctx, "R-C01-TRANSFER")  # finish() gives back exactly the deliveries this consumer buffered, one reject per message (a batched multiple-nack also requeues what other consumers of the channel hold)
     from .shared import clock_family
 
     clock_family(ctx, "R-C01-TRANSFER")  # maintenance hands a held message back only when it really timed out: its age is computed with the same clock reading as every other expiry test
